@@ -138,6 +138,22 @@ func c15Run(t *testing.T, id string, seed int64, nOps int) c15Trace {
 			sp := c15Spell[key][rng.Intn(len(c15Spell[key]))]
 			val := 1 + rng.Intn(2)
 			ev := c15Event{Client: c.name, Key: key, Spell: sp, Val: strconv.Itoa(val)}
+			// every third operation on a nested key races with "somebody else creates the missing top-level ancestor right
+			// after this client has found it missing" (the answer of the client's read is already on its way)
+			var race *c15RaceHook
+			if strings.Contains(key, "/") && rng.Intn(3) == 0 {
+				race = &c15RaceHook{srv: srv, client: c.name, path: "/test/" + key[:strings.IndexByte(key, '/')]}
+				srv.Hook = race
+			}
+			flush := func() {
+				if race != nil {
+					srv.Hook = nil
+					if race.fired {
+						emit(c15Event{Client: "tool", Op: "ToolBad", Key: key[:strings.IndexByte(key, '/')], Val: "0"})
+					}
+				}
+			}
+			_ = flush
 			switch r := rng.Intn(100); {
 			case r < 12:
 				ev.Op = "Create"
@@ -186,6 +202,8 @@ func c15Run(t *testing.T, id string, seed int64, nOps int) c15Trace {
 				// server-side expiry of the client's session; the client library opens a new one
 				ev.Op = "Expire"
 				ev.How = "expire"
+				srv.Hook = nil
+				race = nil
 				srv.ExpireClient(c.name)
 				time.Sleep(3 * time.Second)
 				synctest.Wait()
@@ -193,6 +211,8 @@ func c15Run(t *testing.T, id string, seed int64, nOps int) c15Trace {
 				// the host is cut off: the record must be gone within the session timeout (3s) plus slack
 				ev.Op = "Expire"
 				ev.How = "cut"
+				srv.Hook = nil
+				race = nil
 				srv.Cut(c.name)
 				time.Sleep(3*time.Second + 200*time.Millisecond)
 				synctest.Wait()
@@ -210,6 +230,8 @@ func c15Run(t *testing.T, id string, seed int64, nOps int) c15Trace {
 				// close ends the session at once) and a new process starts
 				ev.Op = "Expire"
 				ev.How = "restart"
+				srv.Hook = nil
+				race = nil
 				c.conn.Close()
 				time.Sleep(200 * time.Millisecond)
 				synctest.Wait()
@@ -218,6 +240,7 @@ func c15Run(t *testing.T, id string, seed int64, nOps int) c15Trace {
 				connect(c.name)
 				continue
 			}
+			flush()
 			emit(ev)
 			if ev.Op == "Expire" || rng.Intn(6) == 0 {
 				emit(snapshot())
@@ -253,4 +276,23 @@ func TestVerifC15Rows(t *testing.T) {
 		bw.Write(b)
 		bw.WriteByte('\n')
 	}
+}
+
+
+// c15RaceHook: right after `client` has been told that `path` does not exist, somebody else creates it.
+type c15RaceHook struct {
+	srv    *verifsim.ZkServer
+	client string
+	path   string
+	fired  bool
+}
+
+func (h *c15RaceHook) BeforeZk(client, op, path string) (int32, bool) { return 0, false }
+
+func (h *c15RaceHook) AfterZk(client, op, path string, code int32) bool {
+	if !h.fired && client == h.client && op == "GetData" && path == h.path && code != 0 {
+		h.fired = true
+		h.srv.Put(h.path, "{bad")
+	}
+	return false
 }
